@@ -52,8 +52,10 @@ def plan(prop, tier):
         )
     if prop == "C03":
         return explorer_plan(
-            "c03", tier, 2500, 40000, GEN_RULE + "; C03 oracle: waker ledger at quiescent points + strict executor (re-polls only woken ops) + bounded queue-space progress",
-            ["repoll:new-waker", "repoll:same-waker", "resolved:Single", "resolved:Multi"],
+            "c03", tier, 2500, 40000, GEN_RULE + "; C03 oracle: waker ledger at quiescent points + strict executor (re-polls only woken ops) + bounded queue-space progress; plus the multi-threaded schedules of scenario c04 (2-4 submitter threads each running a strict executor - poll, then block until the waker fired - while the ring thread polls; a thread still blocked once the queue is empty and nothing is in flight is a lost wake-up)",
+            ["repoll:new-waker", "repoll:same-waker", "resolved:Single", "resolved:Multi", "ops_resolved"],
+            extra_quick=[gen_job("c04", "native-debug", 40, 8, timeout=400)],
+            extra_thorough=[gen_job("c04", "native-debug", 1500, 16, timeout=3000), gen_job("c04", "native-release", 1500, 16, timeout=3000)],
         )
     if prop == "C05":
         return explorer_plan(
